@@ -84,6 +84,12 @@ pub fn exec(case: &[i64]) -> Outcome {
     let wrong_nonce = { let mut v = JwsVerificationOptions::new(); v = if mask & 32 != 0 { v.nonce("nonce-2") } else { v.nonce("nonce-1") }; if mask & 64 != 0 { v = v.method_id(own_id.clone()); } v };
     if doc.verify_jws(jws.as_str(), det, &EdDSAJwsVerifier::default(), &wrong_nonce).is_ok() { o = o.fail("token verifies under a different nonce"); }
     if mask & 32 != 0 { let mut v = JwsVerificationOptions::new(); if mask & 64 != 0 { v = v.method_id(own_id.clone()); } if doc.verify_jws(jws.as_str(), det, &EdDSAJwsVerifier::default(), &v).is_ok() { o = o.fail("token with a nonce verifies without one"); } }
+    // a nonce must be compared as a whole: a proper prefix, an extension and the empty string are different nonces
+    for other in ["nonce-", "nonce-1x", "n", ""] {
+      if mask & 32 == 0 && !other.is_empty() { continue; }
+      let mut v = JwsVerificationOptions::new().nonce(other); if mask & 64 != 0 { v = v.method_id(own_id.clone()); }
+      if doc.verify_jws(jws.as_str(), det, &EdDSAJwsVerifier::default(), &v).is_ok() { o = o.fail("token verifies under a nonce that is a prefix / an extension of its own (or the empty nonce)"); }
+    }
     for (k, sc) in SCOPES.iter().enumerate() {
       let excluded = match (which, k) { (w, s) if w == s => false, (_, 0) => false /* unscoped general lookup is not a relationship scope */, _ => true };
       if k == 0 { continue; }
